@@ -581,6 +581,57 @@ def _is_slot(e: ast.AST, fld: str) -> bool:
     return isinstance(e, ast.Subscript) and _is_self_field(e.value, fld)
 
 
+def stale_slot_read(model: Model, func: str, obj_name: str) -> Optional[str]:
+    """A slot of the module-level container `obj_name` (constant key / index) that `func` reads BEFORE it stores a value computed
+    from its own parameters into the same slot, with the container (or what was read) flowing into what the function returns:
+    the second call sees what the first one left.  Returns a description, or None when that shape is not present."""
+    fi = model.funcs.get(func)
+    if fi is None:
+        return None
+    fn = fi.node
+    params = {a.arg for a in fn.args.args + fn.args.kwonlyargs}
+    if obj_name in params:
+        return None
+    aliases = {obj_name}
+    for n in ast.walk(fn):
+        if isinstance(n, ast.Assign) and isinstance(n.value, ast.Name) and n.value.id == obj_name:
+            aliases |= {t.id for t in n.targets if isinstance(t, ast.Name)}
+    loops = [n for n in ast.walk(fn) if isinstance(n, (ast.For, ast.While))]
+
+    def in_loop(x: ast.AST) -> bool:
+        return any(x is y for lp in loops for y in ast.walk(lp))
+    stores = []
+    for n in ast.walk(fn):
+        if isinstance(n, ast.Assign):
+            for t in n.targets:
+                if isinstance(t, ast.Subscript) and isinstance(t.value, ast.Name) and t.value.id in aliases and isinstance(t.slice, ast.Constant):
+                    stores.append((n, t))
+    for st, tgt in stores:
+        if in_loop(st):
+            continue
+        deps = derive_vars(fn, _names(st.value))
+        if not (deps & params):
+            continue
+        key = tgt.slice.value
+        reads = [n for n in ast.walk(fn)
+                 if isinstance(n, ast.Subscript) and isinstance(n.ctx, ast.Load) and isinstance(n.value, ast.Name) and n.value.id == tgt.value.id
+                 and isinstance(n.slice, ast.Constant) and n.slice.value == key and (n.lineno, n.col_offset) < (st.lineno, st.col_offset) and not in_loop(n)]
+        if not reads:
+            continue
+        # does the container, or something computed from it, reach a return?
+        flows = False
+        for r in ast.walk(fn):
+            if isinstance(r, ast.Return) and r.value is not None:
+                if derive_vars(fn, _names(r.value)) & aliases:
+                    flows = True
+        if not flows:
+            continue
+        rd = reads[0]
+        return (f"`{core.src(rd)[:60]}` (line {rd.lineno}) reads slot {key!r} of {obj_name} before `{core.src(st)[:80]}` (line {st.lineno}) stores a value "
+                f"computed from {sorted(deps & params)} into it, and the container flows into the result: the next call reads what this call stored")
+    return None
+
+
 def derive_vars(fn: ast.FunctionDef, seeds: Set[str]) -> Set[str]:
     """variables from which the given variables are computed (transitively through local assignments), incl. parameters"""
     defs: Dict[str, Set[str]] = {}
